@@ -67,9 +67,27 @@ impl Key {
     }
 
     pub fn to_rel_link_url(&self, relative_to: &str) -> String {
-        RelativePath::new(relative_to)
+        let url = RelativePath::new(relative_to)
             .relative(self.relative_path.to_string())
-            .to_string()
+            .to_string();
+
+        // a note that shares its name with the directory the link is written in (or with one of
+        // its parents) would come out as "" or "..": spell the file name out instead
+        if url.is_empty() || url == ".." || url.ends_with("/..") {
+            let key = self.relative_path.to_string();
+            let name = key.rsplit('/').next().unwrap_or_default().to_string();
+            let to_parent = RelativePath::new(relative_to)
+                .relative(self.parent())
+                .to_string();
+
+            if to_parent.is_empty() {
+                name
+            } else {
+                format!("{}/{}", to_parent, name)
+            }
+        } else {
+            url
+        }
     }
 
     pub fn to_library_url(&self) -> String {
